@@ -657,6 +657,12 @@ def check(rep, drv, seed, n=400, which=('encodeTag', 'encodeLength', 'toBytes', 
             ans = drv.ask('KCERBOOLENC %d' % v_).replace('true', '1').replace('false', '0').replace('|', '')
             if _ints(ans) != ('ok', list(r_[0]) + [int(r_[1]), int(r_[2])]):
                 rep.disagree('KERNEL:cerBoolEnc', 'KCERBOOLENC %d' % v_, ans, repr(r_))
+            r2_ = benc.BooleanEncoder().encodeValue(univ.Boolean(v_ != 0) if v_ in (0, 1) else univ.Integer(v_), None, None)
+            nonlocal_done[0] += 1
+            rep.corr_checked += 1
+            ans = drv.ask('KBERBOOLENC %d' % v_).replace('true', '1').replace('false', '0').replace('|', '')
+            if _ints(ans) != ('ok', list(r2_[0]) + [int(r2_[1]), int(r2_[2])]):
+                rep.disagree('KERNEL:berBoolEnc', 'KBERBOOLENC %d' % v_, ans, repr(r2_))
     if 'wrapTags' in which:
         class Stub(benc.AbstractItemEncoder):
             result = None
